@@ -243,9 +243,8 @@ class World(object):
                 if isinstance(n, ast.Call) and isinstance(n.func, ast.Name):
                     if n.func.id in ("exec", "eval", "compile", "__import__", "globals", "locals", "vars"):
                         bad = "call of %s()" % n.func.id
-                    elif n.func.id in ("getattr", "setattr", "delattr") and len(n.args) >= 2 \
-                            and not isinstance(n.args[1], ast.Constant):
-                        bad = "%s() with a computed attribute name" % n.func.id
+                    # getattr/setattr with a computed name are resolved by the evaluator when the
+                    # name folds to a constant (e.g. a decorator argument); otherwise it stops there
                 elif isinstance(n, ast.ImportFrom) and any(a.name == "*" for a in n.names):
                     bad = "star import"
                 elif isinstance(n, ast.ClassDef) and any(k.arg == "metaclass" for k in n.keywords):
